@@ -128,6 +128,83 @@ def workload_mix(ctx):
     return cached("mix", ctx.tier, ctx.seed, compute)
 
 
+def add_maps(rxn):
+    """the reaction with an atom-map number on every atom (RDKit), or None"""
+    from rdkit import Chem
+
+    out, n = [], 1
+    for side in rxn.split(">>"):
+        m = Chem.MolFromSmiles(side)
+        if m is None or m.GetNumAtoms() == 0:
+            return None
+        for a in m.GetAtoms():
+            a.SetAtomMapNum(n)
+            n += 1
+        out.append(Chem.MolToSmiles(m))
+    return ">>".join(out) if len(out) == 2 else None
+
+
+CONFIGS = {
+    # name: (constructor arguments, attributes set afterwards, row form)
+    "default": ({"n_jobs": 4}, {}, "str"),
+    "columns-rxn-rid": ({"n_jobs": 4, "reaction_col": "rxn", "id_col": "rid", "batch_size": 9}, {}, "dict"),
+    "one-worker-batches-of-3": ({"n_jobs": 1, "batch_size": 3}, {}, "str"),
+    "threshold-0.5": ({"n_jobs": 4, "confidence_threshold": 0.5}, {}, "str"),
+    "keep-atom-maps": ({"n_jobs": 4}, {"remove_aam": False}, "mapped"),
+}
+
+
+def workload_configs(ctx):
+    """untraced runs of one seeded set of small reactions under several configurations (the properties quantify over
+    configurations); rows are renamed to the default column names; cached per tree like the shared trace"""
+
+    def compute():
+        import copy
+        import random
+
+        from synrbl import Balancer
+
+        rng = random.Random(ctx.seed * 31 + 5)
+        n = 40 if ctx.tier == "quick" else 400
+        pool = [r for r in mix_inputs(ctx.seed, ctx.tier) if is_small(r, 40)]
+        pool = pool if len(pool) <= n else rng.sample(pool, n)
+        pool += ["xx>>C", "CC>>CC", "[Na+].[Cl-]>>[Na+].[Cl-]"]
+        res = {}
+        for name, (kw, attrs, form) in CONFIGS.items():
+            rc = kw.get("reaction_col", "reaction")
+            ins = list(pool)
+            if form == "mapped":
+                ins = [add_maps(r) or r for r in pool]
+            rows = ins if form != "dict" else [{rc: r, kw.get("id_col", "id"): 100 + 7 * i, "note": i} for i, r in enumerate(ins)]
+            st = {}
+            try:
+                b = Balancer(**kw)
+                for k, v in attrs.items():
+                    setattr(b, k, v)
+                out = b.rebalance(copy.deepcopy(rows), output_dict=True, stats=st)
+                out = [dict({k: v for k, v in r.items() if k != rc}, reaction=r.get(rc)) for r in out]
+                err = None
+            except Exception as e:
+                out, err = None, "%s: %s" % (type(e).__name__, e)
+            res[name] = {"inputs": ins, "out": out, "stats": st, "error": err, "threshold": kw.get("confidence_threshold", 0),
+                         "batch_size": kw.get("batch_size"), "n_jobs": kw.get("n_jobs")}
+        return res
+
+    return cached("configs", ctx.tier, ctx.seed, compute)
+
+
+def each_config(ctx, fn):
+    """apply an executable statement to the run of every configuration; a configuration under which the public API raises
+    is a violation of every row-level property (no row comes back)"""
+    for name, tr in workload_configs(ctx).items():
+        ctx.count("configuration:" + name)
+        if tr["out"] is None:
+            ctx.violation("run-raises-under-configuration", {"configuration": name, "arguments": CONFIGS[name][0], "attributes": CONFIGS[name][1]},
+                          str(tr["error"]), "synrbl/balancing.py:Balancer.rebalance")
+            continue
+        fn(name, tr)
+
+
 def is_small(rxn, max_heavy=45):
     """reactions whose MCS searches are far from the 1 s / 2 s wall-clock budgets (used wherever two real runs are compared,
     so that a load-dependent timeout cannot masquerade as a difference)"""
